@@ -310,7 +310,7 @@ pub fn shape_vec<T>(item: &PItem, v: Vec<T>) -> Vec<T> {
 pub fn spec_for(item: &PItem, slot: usize) -> Spec {
     let bit = |name: &str| -> bool { slot < 64 && (item.u(name, 0) >> slot) & 1 == 1 };
     let pos = |name: &str| -> bool { item.s(name).split('.').filter(|s| !s.is_empty()).any(|s| s.parse::<usize>().ok() == Some(slot)) };
-    Spec { never: bit("nv") || pos("nvp"), always: bit("al") || pos("alp"), can_err: item.u("err", 0) != 0, eager: bit("eg") }
+    Spec { never: bit("nv") || pos("nvp"), always: bit("al") || pos("alp"), can_err: item.u("err", 0) != 0, eager: bit("eg"), lazy: false }
 }
 
 /// Expands to a `match` over the tuple arities 1..=12, binding `$t` to a tuple built from the
